@@ -232,15 +232,17 @@ PROPS = {
                 "without extension headers, Ipv6Header::set_payload_length, UdpHeader constructors and checksum functions, TCP/UDP/ICMPv6 "
                 "pseudo-header checksum functions incl. TransportHeader::update_checksum_ipv4, MACsec set_payload_len / from_len, "
                 "IpAuthHeader::new/set_raw_icv, Ipv6RawExtHeader::new_raw/set_payload, Ipv4Options, TcpHeader::set_options_raw, "
-                "ArpPacket::new/set_hw_addrs/set_protocol_addrs); probes {0,1,limit-4..limit+4, alignment neighbours, 2^16+-2, 2^32+-2, "
+                "ArpPacket::new/set_hw_addrs/set_protocol_addrs, PacketBuilder payloads for every transport x IP version); probes {0,1,limit-4..limit+4, alignment neighbours, 2^16+-2, 2^32+-2, "
                 "usize::MAX}; the true limit of each row is derived from the wire field width in the monitor; huge payloads are NORESERVE "
                 "zero mappings (accept side of the 2^32 limits in thorough only); distinct = distinct (API, below/at/above limit class)",
-        "assumptions": COMMON_ASSUME + ["builder payload limits are exercised by C10"],
+        "assumptions": COMMON_ASSUME + ["huge payloads are read-only zero mappings: their content is irrelevant for the limit rules"],
         "runs": {"quick": [dict(CHK, shards=8)], "thorough": [dict(CHK, shards=8)]},
         "mandatory": {"accepted.*": 10000, "rejected.*": 10000, "macsec.unknown_fallback": 100, "macsec.encoded_exactly": 100,
                       "rejected.IpHeaders::set_payload_len(ipv4+auth)": 100, "rejected.Icmpv6Type::calc_checksum": 10,
-                      "rejected.TcpHeader::calc_checksum_ipv6": 10, "rejected.UdpHeader::calc_checksum_ipv6_raw": 10},
-        "min_distinct": {"accepted.*": 28, "rejected.*": 28},
+                      "rejected.TcpHeader::calc_checksum_ipv6": 10, "rejected.UdpHeader::calc_checksum_ipv6_raw": 10,
+                      "rejected.PacketBuilder(udp/ipv6)": 200, "rejected.PacketBuilder(udp/ipv4)": 200, "rejected.PacketBuilder(tcp/ipv6)": 200,
+                      "accepted.PacketBuilder(udp/ipv6)": 100, "accepted.PacketBuilder(raw/ipv4)": 20},
+        "min_distinct": {"accepted.*": 36, "rejected.*": 36},
     },
     "C15": {
         "level": "exploration",
